@@ -112,12 +112,20 @@ def gen_workload(rng: Rng) -> dict:
         "fsync_persists_dirent": rng.chance(0.5),
         "journal_reads": True,
     }
+    suffix = rng.choice(["", "", "_fixed"])
+    if suffix and rng.chance(0.5):
+        # the suffixed output already exists (left by an earlier run): it, too, must hold its complete
+        # previous content or the complete new content at every failure point
+        for rel in sorted(meta):
+            if rng.chance(0.7):
+                r_, e_ = os.path.splitext(rel)
+                files[r_ + suffix + e_] = {"b64": b64(b"-- output of an earlier fix run\nSELECT 1\n"), "mode": rng.choice([0o644, 0o600])}
     return {
         "files": files,
         "dirs": ["home/u", "proj"],
         "cwd": "proj",
         "meta": meta,
-        "suffix": rng.choice(["", "", "_fixed"]),
+        "suffix": suffix,
         "knobs": knobs,
     }
 
@@ -244,14 +252,24 @@ def bom_of(b: bytes) -> Optional[str]:
     return None
 
 
-def judge_content(target: str, outpath: str, orig: bytes, fixed: bytes, files: dict, suffix: str, what: str):
-    """Atomicity: target/out path complete original or complete fixed. -> message or None"""
+def judge_content(target: str, outpath: str, orig: bytes, fixed: bytes, files: dict, suffix: str, what: str, prev_out: Optional[bytes] = None):
+    """Atomicity: target/out path complete original or complete fixed. -> message or None
+
+    prev_out: content the suffixed output path held before the run (None: it did not exist).
+    """
     if suffix:
         if files.get(target) != orig:
             return "%s: original file modified although a fixed-file suffix is set (%r...)" % (what, (files.get(target) or b"<absent>")[:40])
         o = files.get(outpath)
-        if o is not None and o != fixed:
-            return "%s: suffixed output %s is neither absent nor complete (%d bytes, expected %d)" % (what, outpath, len(o), len(fixed))
+        if prev_out is None:
+            if o is not None and o != fixed:
+                return "%s: suffixed output %s is neither absent nor complete (%d bytes, expected %d)" % (what, outpath, len(o), len(fixed))
+        else:
+            if o is None:
+                return "%s: suffixed output %s existed before the run and is gone now" % (what, outpath)
+            if o != fixed and o != prev_out:
+                return "%s: suffixed output %s holds neither its complete previous content (%d B) nor the complete fixed content (%d B): %d B %r..." % (
+                    what, outpath, len(prev_out), len(fixed), len(o), o[:40])
         return None
     cur = files.get(target)
     if cur is None:
@@ -283,6 +301,7 @@ def judge_execution(world: dict, rel: str, prep: dict, plan: list, out: dict, af
     else:
         outrel = rel
     files = {k: v[0] for k, v in after.items() if v[0] is not None}
+    prev_out = initial[outrel][0] if (suffix and outrel in initial) else None
     vio: list[dict] = []
     sig = signature_for(out["journal"], outrel)
 
@@ -312,7 +331,7 @@ def judge_execution(world: dict, rel: str, prep: dict, plan: list, out: dict, af
             add("returned-decode", "written bytes undecodable in %s: %r" % (prep["encoding"], e))
     elif "raised" in out:
         stats["raised"] += 1
-        m = judge_content(rel, outrel, orig, fixed, files, suffix, "after failed write (%s)" % out["raised"][:2])
+        m = judge_content(rel, outrel, orig, fixed, files, suffix, "after failed write (%s)" % out["raised"][:2], prev_out)
         if m:
             add("failed-content", m)
         cleanup_faulted = len(plan) > 1 and any(
@@ -324,7 +343,7 @@ def judge_execution(world: dict, rel: str, prep: dict, plan: list, out: dict, af
                 add("failed-leftover", "failed write left temporary file(s) behind: %s" % sorted(extra_entries))
     elif crashed:
         stats["crashed"] += 1
-        m = judge_content(rel, outrel, orig, fixed, files, suffix, "after kill (%s)" % out["crashed"])
+        m = judge_content(rel, outrel, orig, fixed, files, suffix, "after kill (%s)" % out["crashed"], prev_out)
         if m:
             add("kill-content", m)
     # power-loss analysis: at the crash point, or after a successful return
@@ -333,7 +352,7 @@ def judge_execution(world: dict, rel: str, prep: dict, plan: list, out: dict, af
         nstates = 0
         for label, state in power_states(initial, sh, world["knobs"]["fsync_persists_dirent"]):
             nstates += 1
-            m = judge_content(rel, outrel, orig, fixed, state, suffix, "after power loss [%s]" % label)
+            m = judge_content(rel, outrel, orig, fixed, state, suffix, "after power loss [%s]" % label, prev_out)
             if m:
                 add("power-content", m, {"state": label})
                 break
@@ -586,7 +605,8 @@ def level_b_runs(ctx, z, root, world, initial, knobs, seed, rng, tier, stats, fa
             if rel not in fixed:
                 continue
             m = judge_content(rel, outrels[rel], initial[rel][0], fixed[rel], files, suffix,
-                              "multi-file %s run (p=%d) %s" % (cfg["via"], cfg["processes"], "after kill" if crashed else "after return/raise"))
+                              "multi-file %s run (p=%d) %s" % (cfg["via"], cfg["processes"], "after kill" if crashed else "after return/raise"),
+                              initial[outrels[rel]][0] if (suffix and outrels[rel] in initial) else None)
             if m:
                 vs.append({"oracle": "levelB-content", "signature": "C26:generic", "message": m})
         if not crashed:
